@@ -7,8 +7,11 @@
 * representation / decider builders, grammar snapshots, individual snapshots with the C09 comparison rule
 """
 import os
+import signal
 import sys
+import threading
 import time
+from contextlib import contextmanager
 from abc import ABC
 from dataclasses import dataclass, is_dataclass, fields as dc_fields
 from typing import Annotated, Union
@@ -55,6 +58,31 @@ class Clock:
 
     def used(self):
         return time.time() - self.t0
+
+
+class Timeout(Exception):
+    """Raised by watchdog(); a timed-out case is skipped and counted, never judged."""
+
+
+@contextmanager
+def watchdog(seconds):
+    """Bounds one library call (the stack mapper can loop forever for some symbol orders).  Only effective in the main
+    thread; elsewhere it is a no-op."""
+    usable = hasattr(signal, "setitimer") and threading.current_thread() is threading.main_thread()
+    if not usable:
+        yield
+        return
+
+    def handler(signum, frame):
+        raise Timeout()
+
+    old = signal.signal(signal.SIGALRM, handler)
+    signal.setitimer(signal.ITIMER_REAL, max(0.05, seconds), 0.5)  # repeats, in case a handler swallows the first
+    try:
+        yield
+    finally:
+        signal.setitimer(signal.ITIMER_REAL, 0)
+        signal.signal(signal.SIGALRM, old)
 
 
 # ------------------------------------------------------------------------------------------------
